@@ -58,10 +58,10 @@ Definition run_op (w : world) (o : op) : MS value :=
   | ORef u => r <- ref u ;; ret (VN r)
   | OGc roots => collect_garbage roots ;;; ret VU
   | OTape t => modify (fun s => s <| tape := t |>) ;;; ret VU
-  | OSwap x y => r <- swap x y None ;; ret (VL [VN (fst (fst r)); VN (snd (fst r))])
+  | OSwap x y => r <- swap_pub x y ;; ret (VL [VN (fst (fst r)); VN (snd (fst r))])
   | OReorder order =>
-      reorder ((fun l => list_to_map (reverse l)) <$> order) ;;; ret VU
-  | OReorderPairs pairs => reorder_to_pairs pairs ;;; ret VU
+      reorder_pub ((fun l => list_to_map (reverse l)) <$> order) ;;; ret VU
+  | OReorderPairs pairs => reorder_to_pairs_pub pairs ;;; ret VU
   | OConfigure b => r <- configure b ;; ret (VB r)
   | OSetLastLen l => modify (fun s => s <| last_len := l |>) ;;; ret VU
   | OSetTrig k => modify (fun s => s <| trig := k |>) ;;; ret VU
